@@ -4,6 +4,7 @@ import CogentModel.Spec.TableRows
 import CogentModel.Proofs.CsvRoundtrip
 import CogentModel.Proofs.TableOpsLemmas
 import CogentModel.Proofs.TableNamed
+import CogentModel.Proofs.CastStr
 /-! # C20 — property theorems
 
 Tables follow the list-of-rows model (`rowsOf` is the abstraction from the column store to the list
@@ -76,6 +77,48 @@ theorem table_text_roundtrip (d : Dialect) (g : GoodDialect d) (title legend : S
 
 example : tableWrite ⟨',', ['\n']⟩ ['T'] [['a'], ['b', ',']] [[[], ['"']]] [] = "T\na,\"b,\"\n,\"\"\"\"\n".toList := by
   decide
+
+/-- `to_csv()` / `to_tsv()` / `to_string(format="csv"|"tsv")` (= the csv writer on header :: rows, final
+newline dropped — `separator_format` since commit 4196fd381): the text reads back as header :: rows, for all
+tables with at least one column, cells as in `csv_roundtrip` -/
+theorem to_csv_reads_back (d : Dialect) (g : GoodDialect d) (hlt : d.lt = ['\n']) (header : Row) (rows : List Row)
+    (hne : ∀ r ∈ header :: rows, r ≠ []) (hn : ∀ r ∈ header :: rows, ∀ f ∈ r, Quotable d f) :
+    csvRead d.delim (toCsvText d header rows) = .ok (header :: rows) := by
+  unfold toCsvText
+  have hnn : header :: rows ≠ [] := by simp
+  have e := List.dropLast_concat_getLast hnn
+  rw [← e] at hn hne ⊢
+  exact toCsv_reads_back g hlt _ _ (hne _ (by simp)) hn
+
+example : toCsvText ⟨',', ['\n']⟩ [['x', ',', 'y']] [[['q', '"', 'r', ',', 's']], [[]]]
+    = "\"x,y\"\n\"q\"\"r,s\"\n\"\"".toList := by decide
+
+/-! ## numeric columns are restored as numbers (`cast_str_to_array`) -/
+
+/-- `int(str(z)) == z` in the model of the loader's integer grammar -/
+theorem int_text_roundtrip (z : Int) : CastStr.parseInt (CastStr.showInt z) = some z :=
+  CastStr.parseInt_showInt z
+
+/-- a column of ints written as `str(n)`, a column of floats written as `repr(x)`: the loader's decision
+procedure (all cells int → ints, else all float → floats, else text) gives back exactly those numbers.
+The float half is relative to the two trusted facts about float64 text (`float(repr(x)) == x`, `repr(x)` is
+never an integer literal). -/
+theorem load_restores_numeric_columns {F : Type} (parseFloat : CastStr.Str → Option F) (reprF : F → CastStr.Str)
+    (hrt : ∀ x, parseFloat (reprF x) = some x) (hni : ∀ x, CastStr.parseInt (reprF x) = none) :
+    (∀ ns : List Int, ns ≠ [] → CastStr.castColumn parseFloat (ns.map CastStr.showInt) = .ints ns) ∧
+    (∀ xs : List F, xs ≠ [] → CastStr.castColumn parseFloat (xs.map reprF) = .floats xs) :=
+  ⟨fun ns h => CastStr.castColumn_ints parseFloat ns h,
+   fun xs h => CastStr.castColumn_floats parseFloat reprF hrt hni xs h⟩
+
+/-- … and a column with a cell that is neither keeps its text (up to the `eval()` pass, the open finding) -/
+theorem load_keeps_text_columns {F : Type} (parseFloat : CastStr.Str → Option F) (cells : List CastStr.Str)
+    (h1 : cells.mapM CastStr.parseInt = none) (h2 : cells.mapM parseFloat = none) :
+    CastStr.castColumn parseFloat cells = .text cells :=
+  CastStr.castColumn_text parseFloat cells h1 h2
+
+example : CastStr.parseInt (CastStr.showInt (-1099511627776)) = some (-1099511627776) := int_text_roundtrip _
+example : CastStr.parseInt " 1_0 ".toList = some 10 ∧ CastStr.parseInt "1.5".toList = none ∧
+    CastStr.parseInt "01".toList = some 1 := by decide
 
 /-! ## joins -/
 
